@@ -17,6 +17,7 @@ import (
 	"strings"
 	"sync"
 	"time"
+	"verif/harness/netx"
 
 	"verif/harness/gen"
 	"verif/harness/ref"
@@ -244,8 +245,8 @@ type Server struct {
 	UnknownPayloads []string             // classic-type payloads restored that the generator never made
 
 	// knobs (called without the lock held unless stated)
-	Gate    func(c *ConnState, argv [][]byte)          // called before execution, may block (schedule control)
-	Hook    func(c *ConnState, argv [][]byte) *Reply   // with lock held; non-nil reply replaces normal execution
+	Gate    func(c *ConnState, argv [][]byte)        // called before execution, may block (schedule control)
+	Hook    func(c *ConnState, argv [][]byte) *Reply // with lock held; non-nil reply replaces normal execution
 	KeepRaw bool
 	Conns   []*ConnState
 
@@ -262,7 +263,7 @@ func New() *Server {
 
 // Listen starts serving on a loopback TCP port and returns the address.
 func (s *Server) Listen() string {
-	ln, err := net.Listen("tcp", "127.0.0.1:0")
+	ln, err := netx.Listen()
 	if err != nil {
 		panic(err)
 	}
